@@ -109,7 +109,9 @@ def run(ctx) -> None:
         # per-parameter lookup shape
         cfg = a.cfg(R)
         loops = [l for l in walk_own(R.node) if isinstance(l, ast.For)]
-        if not loops or "injected" not in ast.unparse(loops[0].iter):
+        # the table of marked parameters: what inject's own body fills per parameter
+        marked_tables = {n.targets[0].value.id for n in walk_own(inject.node) if isinstance(n, ast.Assign) and len(n.targets) == 1 and isinstance(n.targets[0], ast.Subscript) and isinstance(n.targets[0].value, ast.Name)}
+        if not loops or not (names_in(loops[0].iter) & marked_tables):
             rep.violate("C19.R1", R, R.node, "the resolver does not iterate over all marked parameters")
             continue
         lp = loops[0]
